@@ -21,7 +21,10 @@ AXIOMS = {
     "sin": lambda t, a: [t >= -1, t <= 1],
     "cos": lambda t, a: [t >= -1, t <= 1],
     "tanh": lambda t, a: [t > -1, t < 1, z3.Implies(a[0] == 0, t == 0), z3.Implies(a[0] > 0, t > 0), z3.Implies(a[0] < 0, t < 0)],
-    "logistic": lambda t, a: [t > 0, t < 1, z3.Implies(a[0] == 0, t * 2 == 1), z3.Implies(a[0] > 0, t * 2 > 1), z3.Implies(a[0] < 0, t * 2 < 1)],
+    # (the last four: brackets of the real logistic at +-9 and +-12 extended by monotonicity -- sigma(9) = 0.99987661, 1 - sigma(12) = 6.14e-6)
+    "logistic": lambda t, a: [t > 0, t < 1, z3.Implies(a[0] == 0, t * 2 == 1), z3.Implies(a[0] > 0, t * 2 > 1), z3.Implies(a[0] < 0, t * 2 < 1),
+                              z3.Implies(a[0] >= 12, t >= 1 - z3.Q(1, 100000)), z3.Implies(a[0] <= -12, t <= z3.Q(1, 100000)),
+                              z3.Implies(a[0] <= 9, t <= z3.Q(99988, 100000)), z3.Implies(a[0] >= -9, t >= z3.Q(12, 100000))],
     "log": lambda t, a: [z3.Implies(a[0] == 1, t == 0), z3.Implies(z3.And(a[0] > 0, a[0] < 1), t < 0), z3.Implies(a[0] > 1, t > 0)],
     "log1p": lambda t, a: [z3.Implies(a[0] == 0, t == 0), z3.Implies(a[0] > 0, t > 0)],
     "softplus": lambda t, a: [t > 0],
